@@ -104,6 +104,63 @@ func (lw *lckWorld) fieldAddr(v ssa.Value) (*ssa.FieldAddr, bool) {
 	return fa, true
 }
 
+// paramConfined: the callee uses its i-th parameter (a pointer) only to address fields, load and store through it.
+func paramConfined(callee *ssa.Function, i int) bool {
+	if callee == nil || len(callee.Blocks) == 0 || i >= len(callee.Params) {
+		return false
+	}
+	var confined func(v ssa.Value, depth int) bool
+	confined = func(v ssa.Value, depth int) bool {
+		refs := v.Referrers()
+		if refs == nil || depth > 3 {
+			return false
+		}
+		for _, ref := range *refs {
+			switch x := ref.(type) {
+			case *ssa.FieldAddr:
+				if !confined(x, depth+1) {
+					return false
+				}
+			case *ssa.UnOp:
+				if x.Op != token.MUL {
+					return false
+				}
+			case *ssa.Store:
+				if x.Val == v {
+					return false // the address itself is stored somewhere
+				}
+			case *ssa.DebugRef:
+			default:
+				return false
+			}
+		}
+		return true
+	}
+	return confined(callee.Params[i], 0)
+}
+
+// flagAddr resolves an address to a probe flag of Formatters: the field itself (sub == -1), or a sub-field of a flag
+// that is a small struct (`fmts.flag.probed`).
+func (lw *lckWorld) flagAddr(v ssa.Value) (field, sub int, ok bool) {
+	fa, isFA := v.(*ssa.FieldAddr)
+	if !isFA {
+		return 0, 0, false
+	}
+	if lw.isFmtPtr(fa.X.Type()) {
+		return fa.Field, -1, true
+	}
+	if inner, isFA := fa.X.(*ssa.FieldAddr); isFA && lw.isFmtPtr(inner.X.Type()) {
+		return inner.Field, fa.Field, true
+	}
+	return 0, 0, false
+}
+
+// structFlag: the flag field is a struct value (status bits) rather than a pointer.
+func (lw *lckWorld) structFlag(field int) bool {
+	_, ok := lw.st.Field(field).Type().Underlying().(*types.Struct)
+	return ok
+}
+
 // lockCall classifies a call as Lock/Unlock on the Formatters mutex.
 func (lw *lckWorld) lockCall(c *ssa.CallCommon) string {
 	callee := c.StaticCallee()
@@ -376,12 +433,19 @@ func (lw *lckWorld) guardedBy() {
 					check("load", lw.flagIdx[fa.Field])
 				} else if fld, ok := flagPtr[x.X]; ok {
 					check("load-through", fld)
+				} else if fi, sub, ok := lw.flagAddr(x.X); ok && sub >= 0 && fi != lw.lockIdx {
+					check("load", lw.flagIdx[fi]) // a status bit of a struct-valued flag
 				}
 			case *ssa.Store:
 				if fa, ok := lw.fieldAddr(x.Addr); ok && fa.Field != lw.lockIdx {
 					check("store", lw.flagIdx[fa.Field])
 				} else if fld, ok := flagPtr[x.Addr]; ok {
 					check("store-through", fld)
+				} else if fi, sub, ok := lw.flagAddr(x.Addr); ok && sub >= 0 && fi != lw.lockIdx {
+					check("store", lw.flagIdx[fi])
+				}
+				if fa, ok := lw.fieldAddr(x.Val); ok && fa.Field != lw.lockIdx {
+					r.bad("LCK-1", name, "escape "+lw.flagIdx[fa.Field], pos, "the address of the flag is stored elsewhere and may be used without the mutex")
 				}
 				if fld, ok := flagPtr[x.Val]; ok {
 					r.bad("LCK-1", name, "escape "+fld, pos, "the flag pointer is stored elsewhere and may be dereferenced without the mutex")
@@ -402,6 +466,19 @@ func (lw *lckWorld) guardedBy() {
 					r.ok("LCK-2", name, c, pos, "mutex released (or deferred Unlock registered) on every path to this exit", true)
 				}
 			case *ssa.Call:
+				for ai, a := range x.Call.Args {
+					if fa, ok := lw.fieldAddr(a); ok && fa.Field != lw.lockIdx {
+						callee := x.Call.StaticCallee()
+						switch {
+						case callee != nil && touch[callee] && lw.entry[callee]:
+						case callee != nil && s.must && paramConfined(callee, ai):
+							lw.accesses++
+							r.ok("LCK-1", name, "flag address passed to "+callee.Name(), pos, "the mutex is held across the call and the callee only reads and writes through the parameter (it neither keeps nor passes on the address)", true)
+						default:
+							r.bad("LCK-1", name, "escape "+lw.flagIdx[fa.Field], pos, "the address of the flag is handed to a call that is not known to run under the mutex, or that may keep it")
+						}
+					}
+				}
 				switch lw.lockCall(&x.Call) {
 				case "Lock":
 					if s.may {
@@ -659,6 +736,7 @@ func wrapperCmd(c *ssa.Call, idx []int) []string {
 type probeInfo struct {
 	fn       *ssa.Function
 	field    int
+	armedSub int // struct-form flag: the boolean sub-field whose false value arms the probe (-1: pointer form)
 	probeCmd []string
 }
 
@@ -676,7 +754,9 @@ func (lw *lckWorld) probes() {
 			for _, ins := range b.Instrs {
 				switch x := ins.(type) {
 				case *ssa.Store:
-					if fa, ok := lw.fieldAddr(x.Addr); ok && fa.Field != lw.lockIdx {
+					if fld, _, ok := lw.flagAddr(x.Addr); ok && fld != lw.lockIdx && lw.structFlag(fld) {
+						stores[fld] = true // what is stored is judged in probeTypestate, once the armed bit is known
+					} else if fa, ok := lw.fieldAddr(x.Addr); ok && fa.Field != lw.lockIdx {
 						stores[fa.Field] = true
 						name := fname(w, f)
 						c := "store " + lw.flagIdx[fa.Field]
@@ -687,8 +767,8 @@ func (lw *lckWorld) probes() {
 						}
 					}
 				case *ssa.UnOp:
-					if fa, ok := lw.fieldAddr(x.X); ok && x.Op == token.MUL && fa.Field != lw.lockIdx {
-						reads[fa.Field] = true
+					if fld, _, ok := lw.flagAddr(x.X); ok && x.Op == token.MUL && fld != lw.lockIdx {
+						reads[fld] = true
 					}
 				}
 			}
@@ -710,7 +790,7 @@ func (lw *lckWorld) probes() {
 				r.bad("LCK-4", name, "reads "+lw.flagIdx[k]+" stores "+lw.flagIdx[field], w.Pos(f.Pos()), "a probe function reads a flag other than the one it sets")
 			}
 		}
-		pi := &probeInfo{fn: f, field: field}
+		pi := &probeInfo{fn: f, field: field, armedSub: -1}
 		lckProbes[f] = pi
 		byField[field] = append(byField[field], f)
 		lw.probeTypestate(pi)
@@ -752,6 +832,44 @@ func (lw *lckWorld) probeTypestate(pi *probeInfo) {
 		}
 		iff, ok := b.Instrs[len(b.Instrs)-1].(*ssa.If)
 		if !ok {
+			continue
+		}
+		if lw.structFlag(pi.field) {
+			// `if !flag.probed {probe}`: the armed edge is the one on which the loaded bit is false
+			v, armedOnTrue := iff.Cond, false
+			for {
+				if u, ok := v.(*ssa.UnOp); ok && u.Op == token.NOT {
+					v, armedOnTrue = u.X, !armedOnTrue
+					continue
+				}
+				if bo, ok := v.(*ssa.BinOp); ok && (bo.Op == token.EQL || bo.Op == token.NEQ) {
+					if k, ok := bo.Y.(*ssa.Const); ok && k.Value != nil && k.Value.Kind() == constant.Bool {
+						if constant.BoolVal(k.Value) == (bo.Op == token.NEQ) { // x == false, x != true
+							armedOnTrue = !armedOnTrue
+						}
+						v = bo.X
+						continue
+					}
+				}
+				break
+			}
+			ld, ok := v.(*ssa.UnOp)
+			if !ok || ld.Op != token.MUL {
+				continue
+			}
+			fld, sub, ok := lw.flagAddr(ld.X)
+			if !ok || fld != pi.field || sub < 0 {
+				continue
+			}
+			if pi.armedSub >= 0 && pi.armedSub != sub {
+				continue // a second bit is tested: only the first one found is the armed bit
+			}
+			pi.armedSub = sub
+			if armedOnTrue {
+				guards = append(guards, guard{b.Succs[0]})
+			} else {
+				guards = append(guards, guard{b.Succs[1]})
+			}
 			continue
 		}
 		bin, ok := iff.Cond.(*ssa.BinOp)
@@ -809,6 +927,9 @@ func (lw *lckWorld) probeTypestate(pi *probeInfo) {
 	}
 	for _, run := range runs {
 		c := "probe guarded by " + fld + " == nil"
+		if lw.structFlag(pi.field) {
+			c = "probe guarded by " + fld + " not yet probed"
+		}
 		guarded := false
 		for _, g := range guards {
 			// the true edge must be the only way into tblock
@@ -818,8 +939,12 @@ func (lw *lckWorld) probeTypestate(pi *probeInfo) {
 		}
 		r.cond(guarded, "LCK-3", name, c, w.Pos(run.Pos()), "the probe's block is dominated by the true edge of the nil test on the same field", "the external probe is not control-dependent on the flag being nil: it can run more than once per cache")
 		// must-store after probe: dataflow "probed and not yet stored"
-		pending := lw.pendingAtReturn(f, run, pi.field)
+		pending := lw.pendingAtReturn(f, run, pi.field, pi.armedSub)
 		r.cond(!pending, "LCK-3", name, "store "+fld+" after probe", w.Pos(run.Pos()), "every path from the probe to a return stores into the same flag field", "some path from the probe reaches a return without caching the result: the next request probes again")
+	}
+	if lw.structFlag(pi.field) {
+		lw.structFlagStores(pi, runs, wrapped)
+		return
 	}
 	// cached boolean is (err == nil) of the probe, and the function returns the flag's value
 	for _, b := range f.Blocks {
@@ -905,8 +1030,143 @@ func (lw *lckWorld) probeTypestate(pi *probeInfo) {
 	}
 }
 
+// structFlagStores is the second half of LCK-3 for a flag that is a struct of status bits: every store into the flag
+// sets the armed bit to the constant true (so the probe is never re-armed), the other bit it stores is exactly
+// (probe error == nil), and the function returns that bit of its own flag.
+func (lw *lckWorld) structFlagStores(pi *probeInfo, runs []*ssa.Call, wrapped map[*ssa.Call]bool) {
+	w, r := lw.w, lw.r
+	f := pi.fn
+	name := fname(w, f)
+	fld := lw.flagIdx[pi.field]
+	if pi.armedSub < 0 {
+		r.bad("LCK-3", name, "probe guarded by "+fld+" not yet probed", w.Pos(f.Pos()), "no test of a status bit of the flag guards the probe: it can run more than once per cache")
+		return
+	}
+	isTrue := func(v ssa.Value) bool {
+		k, ok := v.(*ssa.Const)
+		return ok && k.Value != nil && k.Value.Kind() == constant.Bool && constant.BoolVal(k.Value)
+	}
+	isProbeOK := func(v ssa.Value) bool {
+		if wc, ok := v.(*ssa.Call); ok && wrapped[wc] {
+			return true
+		}
+		bin, ok := v.(*ssa.BinOp)
+		if !ok || bin.Op != token.EQL {
+			return false
+		}
+		var other ssa.Value
+		if k, ok := bin.Y.(*ssa.Const); ok && k.IsNil() {
+			other = bin.X
+		} else if k, ok := bin.X.(*ssa.Const); ok && k.IsNil() {
+			other = bin.Y
+		}
+		for _, run := range runs {
+			if other == ssa.Value(run) {
+				return true
+			}
+			if ex, ok := other.(*ssa.Extract); ok && ex.Tuple == ssa.Value(run) {
+				return true
+			}
+		}
+		return false
+	}
+	// which bit the function returns
+	resultSub := -1
+	isFlagBit := func(v ssa.Value) (int, bool) {
+		if u, ok := v.(*ssa.UnOp); ok && u.Op == token.MUL {
+			if fl, sub, ok := lw.flagAddr(u.X); ok && fl == pi.field && sub >= 0 {
+				return sub, true
+			}
+		}
+		return 0, false
+	}
+	for _, b := range f.Blocks {
+		for _, ins := range b.Instrs {
+			ret, ok := ins.(*ssa.Return)
+			if !ok || len(ret.Results) != 1 || (f.Recover != nil && b == f.Recover) {
+				continue
+			}
+			good := false
+			if sub, ok := isFlagBit(ret.Results[0]); ok && sub != pi.armedSub {
+				good, resultSub = true, sub
+			} else if u, ok := ret.Results[0].(*ssa.UnOp); ok && u.Op == token.MUL {
+				if al, ok := u.X.(*ssa.Alloc); ok { // result spilled because of the deferred Unlock
+					n := 0
+					good = true
+					for _, ref := range *al.Referrers() {
+						if st, ok := ref.(*ssa.Store); ok && st.Addr == ssa.Value(al) {
+							n++
+							if sub, ok := isFlagBit(st.Val); ok && sub != pi.armedSub {
+								resultSub = sub
+							} else {
+								good = false
+							}
+						}
+					}
+					good = good && n > 0
+				}
+			}
+			r.cond(good, "LCK-3", name, "return *"+fld, w.Pos(ret.Pos()), "the probe function returns the cached result bit of its own flag", "the probe function does not return the cached value of its own flag")
+		}
+	}
+	// stores: whole-struct stores of a composite literal, or stores into single bits
+	checkBit := func(sub int, val ssa.Value, pos token.Pos) {
+		switch {
+		case sub == pi.armedSub:
+			r.cond(isTrue(val), "LCK-3", name, "store "+fld+" non-nil", w.Pos(pos), "the status bit that disarms the probe is set to the constant true: the flag is never reset", "the bit that says 'already probed' is stored from something other than the constant true: it may be false and re-arm the probe")
+		case sub == resultSub || resultSub < 0:
+			r.cond(isProbeOK(val), "LCK-3", name, "*"+fld+" = (probe error == nil)", w.Pos(pos), "the cached boolean is exactly 'the probe returned a nil error'", "the cached boolean is not (probe error == nil): a missing tool is reported present or vice versa")
+		}
+	}
+	for _, b := range f.Blocks {
+		for _, ins := range b.Instrs {
+			st, ok := ins.(*ssa.Store)
+			if !ok {
+				continue
+			}
+			fl, sub, ok := lw.flagAddr(st.Addr)
+			if !ok || fl != pi.field {
+				continue
+			}
+			if sub >= 0 {
+				checkBit(sub, st.Val, st.Pos())
+				continue
+			}
+			// whole value: must be a composite literal built in a local whose bits are stored once each
+			ld, ok := st.Val.(*ssa.UnOp)
+			var al *ssa.Alloc
+			if ok && ld.Op == token.MUL {
+				al, _ = ld.X.(*ssa.Alloc)
+			}
+			if al == nil {
+				r.bad("LCK-3", name, "store "+fld+" non-nil", w.Pos(st.Pos()), "the flag is overwritten with a value that is not a status literal built here: it may have the 'already probed' bit unset and re-arm the probe")
+				continue
+			}
+			seen := map[int]bool{}
+			for _, ref := range *al.Referrers() {
+				bfa, ok := ref.(*ssa.FieldAddr)
+				if !ok {
+					continue
+				}
+				for _, r2 := range *bfa.Referrers() {
+					if bst, ok := r2.(*ssa.Store); ok && bst.Addr == ssa.Value(bfa) {
+						seen[bfa.Field] = true
+						checkBit(bfa.Field, bst.Val, bst.Pos())
+					}
+				}
+			}
+			if !seen[pi.armedSub] {
+				r.bad("LCK-3", name, "store "+fld+" non-nil", w.Pos(st.Pos()), "the status literal stored into the flag leaves the 'already probed' bit at its zero value: the probe is re-armed")
+			}
+			if resultSub >= 0 && !seen[resultSub] {
+				r.bad("LCK-3", name, "*"+fld+" = (probe error == nil)", w.Pos(st.Pos()), "the status literal stored into the flag does not set the result bit: a working tool is cached as missing")
+			}
+		}
+	}
+}
+
 // pendingAtReturn: may a return be reached from `run` without a store into flag `field`?
-func (lw *lckWorld) pendingAtReturn(f *ssa.Function, run *ssa.Call, field int) bool {
+func (lw *lckWorld) pendingAtReturn(f *ssa.Function, run *ssa.Call, field, armedSub int) bool {
 	pendIn := make([]bool, len(f.Blocks))
 	result := false
 	changed := true
@@ -918,7 +1178,7 @@ func (lw *lckWorld) pendingAtReturn(f *ssa.Function, run *ssa.Call, field int) b
 					p = true
 				}
 			case *ssa.Store:
-				if fa, ok := lw.fieldAddr(x.Addr); ok && fa.Field == field {
+				if fld, sub, ok := lw.flagAddr(x.Addr); ok && fld == field && (sub == -1 || sub == armedSub) {
 					p = false
 				}
 			case *ssa.Return:
